@@ -423,7 +423,89 @@ func startupSkeleton(c *ex.Ctx, vx *ast.File, sb *strings.Builder) {
 			})
 		}
 	}
+	// round 4: the same with the error exits of New in place: "err:<call whose error is tested>:<lifecycle calls made
+	// before the return, comma separated>".  newCalls (above) lists only the calls outside such blocks.
+	var seq []string
+	if fd := ex.FindFunc(vx, "", "New"); fd != nil {
+		lifeCallsIn := func(n ast.Node) []string {
+			var out []string
+			ast.Inspect(n, func(m ast.Node) bool {
+				if ce, ok := m.(*ast.CallExpr); ok {
+					if se, ok := ce.Fun.(*ast.SelectorExpr); ok && c.Src(se.X) == "vx" && life[se.Sel.Name] {
+						out = append(out, se.Sel.Name)
+					}
+				}
+				return true
+			})
+			return out
+		}
+		lastCall := "unknown"
+		var walk func(l []ast.Stmt)
+		walk = func(l []ast.Stmt) {
+			for _, st := range l {
+				if is, ok := st.(*ast.IfStmt); ok && c.Src(is.Cond) == "err != nil" && is.Else == nil {
+					returns := false
+					for _, b := range is.Body.List {
+						if _, ok := b.(*ast.ReturnStmt); ok {
+							returns = true
+						}
+					}
+					if returns {
+						seq = append(seq, "err:"+lastCall+":"+strings.Join(lifeCallsIn(is.Body), ","))
+						continue
+					}
+				}
+				// remember the call whose error the next `if err != nil` tests
+				if as, ok := st.(*ast.AssignStmt); ok && len(as.Rhs) == 1 {
+					if ce, ok := as.Rhs[0].(*ast.CallExpr); ok {
+						for _, lh := range as.Lhs {
+							if c.Src(lh) == "err" {
+								lastCall = c.Src(ce.Fun)
+							}
+						}
+					}
+				}
+				switch x := st.(type) {
+				case *ast.SwitchStmt:
+					for _, cl := range x.Body.List {
+						walk(cl.(*ast.CaseClause).Body)
+					}
+				case *ast.IfStmt:
+					seq = append(seq, lifeCallsIn(x.Cond)...)
+					walk(x.Body.List)
+				case *ast.ForStmt, *ast.LabeledStmt, *ast.DeferStmt:
+					seq = append(seq, lifeCallsIn(st)...)
+				default:
+					seq = append(seq, lifeCallsIn(st)...)
+				}
+			}
+		}
+		walk(fd.Body.List)
+	}
+	var seqL []string
+	for _, x := range seq {
+		if strings.HasPrefix(x, "err:") {
+			parts := strings.SplitN(x, ":", 3)
+			var cs []string
+			for _, y := range strings.Split(parts[2], ",") {
+				if y != "" {
+					cs = append(cs, ex.LeanStr(y))
+				}
+			}
+			seqL = append(seqL, fmt.Sprintf("(\"err\", %s, [%s])", ex.LeanStr(parts[1]), strings.Join(cs, ", ")))
+		} else {
+			seqL = append(seqL, fmt.Sprintf("(\"call\", %s, [])", ex.LeanStr(x)))
+		}
+	}
+	// newCalls: the lifecycle calls outside the error exits
+	calls = nil
+	for _, x := range seq {
+		if !strings.HasPrefix(x, "err:") {
+			calls = append(calls, ex.LeanStr(x))
+		}
+	}
 	fmt.Fprintf(sb, "/-- Lifecycle functions called by `New`, in source order. -/\ndef newCalls : List String := [%s]\n\n", strings.Join(calls, ", "))
+	fmt.Fprintf(sb, "/-- The same with the error exits of `New` in place: (\"call\", lifecycle function, []) or (\"err\", the call whose error is tested, lifecycle calls made before the `return nil, err`). -/\ndef newSequence : List (String × String × List String) := [%s]\n\n", strings.Join(seqL, ", "))
 	fmt.Fprintf(sb, "/-- openTty installs a new writer (`vx.tw = newWriter(vx)`). -/\ndef openTtyInstallsWriter : Bool := %v\n\n", installs)
 	fmt.Fprintf(sb, "/-- How newWriter creates its buffer. -/\ndef newWriterBuf : String := %s\n\n", ex.LeanStr(buf))
 }
